@@ -170,6 +170,33 @@ theorem inbound_open_exact {s : Inb} {g : Ghost} (h : IReachW s g) :
     have := (hw sc).1 hsc
     rw [h0] at this; cases this
 
+/-- a resume (or stop) request of the application is forwarded to `Inbound` in every state of its
+    SubChannel machine — `unconnected`, `open_*`, `closing` (after a local `loseConnection()`),
+    `write_closed`/`read_closed` (half-closed), even `closed`: the subchannel leaves
+    `_paused_subchannels`, and if it was the last one the current connection is told to resume.
+    (`SubChannel.resumeProducing` being an unguarded forwarder is pinned by `skeleton_agrees`.) -/
+theorem resume_forwarded_in_every_state (s : Inb) (sc : Nat) (st : Gen.SubChannel.State) (half : Bool) :
+    let s0 := s.setSc sc (st, half)
+    istep s0 (.resume sc) = s0.discard sc ∧ istep s0 (.stopProducing sc) = s0.discard sc ∧
+    (istep s0 (.resume sc)).pausedSc = sDel sc s.pausedSc ∧
+    (∀ c, s.conn = some c → s.pausedSc ≠ [] → sDel sc s.pausedSc = [] →
+      (istep s0 (.resume sc)).log = .tResume c :: s.log) := by
+  refine ⟨rfl, rfl, ?_, ?_⟩
+  · simp only [istep]; rw [discard_pausedSc]; rfl
+  · intro c hc hne hlast
+    have hf : dcpForwardsResume = true := by decide
+    have hne' : s.pausedSc.isEmpty = false := by simpa using hne
+    simp [istep, Inb.discard, Inb.setSc, hc, hne', hlast, Inb.connResume, hf]
+
+/-- a local `loseConnection()` / `loseWriteConnection()` never changes who holds a pause: either
+    nothing about `_paused_subchannels`/`_open_subchannels` changes (the subchannel is `closing` or
+    `write_closed`, still open until the peer's CLOSE), or it completes the close and the subchannel
+    leaves both sets in the same step (generated table: only a row with `close_subchannel` can do that) -/
+theorem local_close_keeps_pause (s : Inb) (sc : Nat) :
+    (EffSame s (istep s (.lose sc)) ∨ EffClosed s (istep s (.lose sc)) sc) ∧
+    (EffSame s (istep s (.loseW sc)) ∨ EffClosed s (istep s (.loseW sc)) sc) :=
+  local_close_effect s sc
+
 /-- the call skeletons of the anchored methods, as regenerated from the working tree on this run,
     are the ones the model's operations were written against (a dropped, added or re-ordered call
     in any of them breaks this theorem before any test has to notice) -/
@@ -198,6 +225,28 @@ theorem skeleton_agrees :
     Gen.Skel.skeleton "Inbound.subchannel_stopProducing" = [("if", "_connection.resumeProducing")] ∧
     dcpForwardsPause = true ∧ dcpForwardsResume = true := by
   decide +kernel
+
+/-- … and of the SubChannel / Manager methods the Inbound world goes through: the three
+    `*Producing` methods of `SubChannel` are unguarded single-statement forwarders
+    (`Gen.Flags.subchannel_*_is_plain_forward`, computed from the AST of the working tree), whatever
+    `loseConnection()` / `loseWriteConnection()` did before -/
+theorem skeleton_agrees_subchannel :
+    Gen.Skel.skeleton "Inbound.handle_close" = [("if", "CloseForMissingSubchannelError"), ("-", "sc.remote_close")] ∧
+    Gen.Skel.skeleton "SubChannel.pauseProducing" = [("-", "_manager.subchannel_pauseProducing")] ∧
+    Gen.Skel.skeleton "SubChannel.resumeProducing" = [("-", "_manager.subchannel_resumeProducing")] ∧
+    Gen.Skel.skeleton "SubChannel.stopProducing" = [("-", "_manager.subchannel_stopProducing")] ∧
+    Gen.Flags.subchannel_pause_is_plain_forward = true ∧
+    Gen.Flags.subchannel_resume_is_plain_forward = true ∧
+    Gen.Flags.subchannel_stop_is_plain_forward = true ∧
+    Gen.Skel.skeleton "SubChannel.loseConnection" =
+      [("-", "IHalfCloseableProtocol.providedBy"), ("if", "NormalCloseUsedOnHalfCloseable"), ("-", "self.local_close")] ∧
+    Gen.Skel.skeleton "SubChannel.loseWriteConnection" =
+      [("-", "IHalfCloseableProtocol.providedBy"), ("if", "HalfCloseUsedOnNonHalfCloseable"), ("-", "self.local_close")] ∧
+    Gen.Skel.skeleton "SubChannel.close_subchannel" = [("-", "_manager.subchannel_closed")] ∧
+    Gen.Skel.skeleton "Manager.subchannel_pauseProducing" = [("-", "_inbound.subchannel_pauseProducing")] ∧
+    Gen.Skel.skeleton "Manager.subchannel_resumeProducing" = [("-", "_inbound.subchannel_resumeProducing")] ∧
+    Gen.Skel.skeleton "Manager.subchannel_stopProducing" = [("-", "_inbound.subchannel_stopProducing")] := by
+  decide
 
 /-! ## the environment hypothesis is needed (current code) -/
 
@@ -256,5 +305,17 @@ example : ∃ g, IReachW iexW g ∧ g.w = [2] ∧ g.cl = [1] ∧ iexW.conn = som
 /-- … and the only paused subchannel closed: the connection is resumed (the defect fixed by bec439a) -/
 def iexC : Inb := istep (istep (istep (istep {} .use) (.opn 1)) (.pause 1)) (.close 1)
 example : iexC.pausedSc = [] ∧ iexC.log = [.tResume 1, .tPause 1] := by decide
+
+/-- pause → loseConnection() (subchannel `closing`, still open) → resume: the resume is honoured;
+    then the peer's CLOSE closes it -/
+def iexL : Inb := istep (istep (istep (istep (istep {} .use) (.opn 1)) (.pause 1)) (.lose 1)) (.resume 1)
+example : (istep (istep (istep (istep {} .use) (.opn 1)) (.pause 1)) (.lose 1)).scState 1 = (.closing, false) ∧
+    iexL.openSc = [1] ∧ iexL.pausedSc = [] ∧ iexL.log = [.tResume 1, .tPause 1] ∧
+    (istep iexL (.rclose 1)).openSc = [] := by decide
+
+/-- half-close: pause → loseWriteConnection() (`write_closed`) → peer's CLOSE closes it while paused: released -/
+def iexH : Inb := istep (istep (istep (istep (istep {} .use) (.opnHalf 1)) (.pause 1)) (.loseW 1)) (.rclose 1)
+example : iexH.openSc = [] ∧ iexH.pausedSc = [] ∧ iexH.scState 1 = (.closed, true) ∧
+    iexH.log = [.tResume 1, .tPause 1] := by decide
 
 end WV.Props.C15
